@@ -257,6 +257,15 @@ class Interval:
                 lo = k + 1
             if hi == k:
                 hi = k - 1
+        # an excluded value at a bound tightens the bound (whichever fact came first)
+        n = 0
+        while lo in ex and lo <= hi and n < 8:
+            lo += 1
+            n += 1
+        n = 0
+        while hi in ex and lo <= hi and n < 8:
+            hi -= 1
+            n += 1
         return Interval(lo, hi, ex)
 
     def __repr__(self):
